@@ -15,7 +15,7 @@ from harness import common as C
 from harness import tds_stub as T
 from harness import c06
 
-PROP_MODULES = ['Andes.Props.C14']
+PROP_MODULES = ['Andes.Props.C14', 'Andes.Props.C04Order']
 RULE = ('scripted stream: scenarios with 2-4 resumed segments whose boundaries sit before/at/after events, off-grid, '
         'repeated or in the past; real stream: (stock case, split time around the disturbance, snapshot yes/no); '
         'distinct = distinct scenario / (case, cut); non-trivial = at least two segments that both accepted steps')
